@@ -30,7 +30,9 @@ from harness import imglib as IL
 from harness import pdfwriter as W
 
 LEVEL = "proof"
-RULE = ("documents with one Type0 font and 0-3 image XObjects; the Encoding name, the CMapName of an Encoding stream, "
+RULE = ("documents run through extract_text_to_fp (text/xml/html), extract_text, extract_pages or tools/pdf2txt.py, "
+        "with one Type0 font (optionally embedded FontFile2/FontFile programs) and 0-3 image XObjects of every "
+        "ImageWriter branch (bmp 1/8/24, raw .img, jpg, jb2, the Pillow-only paths); the Encoding name, the CMapName of an Encoding stream, "
         "the usecmap operand of a ToUnicode CMap, CIDSystemInfo Registry/Ordering, BaseFont and the XObject names are "
         "drawn from hostile strings: absolute paths to a planted decoy, ../ chains from either resource directory, "
         "NUL-obfuscated separators, '.', '..', empty, a/b, long (300) names, backslashes, non-UTF-8 bytes, and benign "
@@ -39,8 +41,12 @@ RULE = ("documents with one Type0 font and 0-3 image XObjects; the Encoding name
 TRUSTED_BASE = [
     "hand model lean/PdfVerif/Model/Path.lean (posixpath.join/normpath, CMapDB._load_data file names, "
     "_create_unique_image_name) - compared on every case with os.path and with the paths pdfminer really opens/creates",
-    "sys.addaudithook reports every open()/os.* call of the interpreter (os.stat / os.path.exists raise no audit "
-    "event: probes are only visible when the probed file exists and is then opened - hence the planted decoys)",
+    "sys.addaudithook reports open / os.mkdir,remove,rename,rmdir,link,symlink,truncate,chmod,chown,listdir,scandir,utime,"
+    "mkfifo,mknod / shutil.* / os.system / subprocess.Popen / os.exec* / os.posix_spawn / socket.connect; os.stat, os.lstat "
+    "and os.access (hence os.path.exists/isfile/isdir) raise no audit event and are wrapped in the harness process while a "
+    "case runs, so every existence probe is observed too",
+    "tools/translate/gen_c15.py: the %s.pickle.gz / to-unicode-%s / %s.%d%s literals, the replacement character and the "
+    "presence and position of the confinement guard are re-read from the source on every run (Gen/PathGen.lean)",
     "POSIX semantics of open/exists without symlinks or concurrent writers inside the sandbox tree",
 ]
 ASSUMPTIONS = [
@@ -50,6 +56,8 @@ ASSUMPTIONS = [
 ]
 STATEMENT_STATUS = {
     "C15_cmap_confined": "proved (guarded model = repaired code)",
+    "C15_unicode_map_confined": "proved (Registry-Ordering route through to-unicode-%s)",
+    "C15_cmap_lookup_kept": "proved (names without a separator are still looked up in every directory)",
     "C15_image_confined": "proved (guarded model = repaired code)",
     "C15_no_overwrite": "proved",
     "C15_unique_terminates": "proved (fuel = |existing| + 1)",
